@@ -47,6 +47,7 @@ static unsigned eid(const z3::expr &e)
   return id;
 }
 
+struct PtrTarget { EP cond; int obj; uint64_t off; };
 struct Val
 {
   unsigned bits = 0;
@@ -55,6 +56,10 @@ struct Val
   bool conc = true;
   uint64_t c = 0;
   EP e;                    // when !conc: bitvector of width bits (for ptr: 64-bit offset)
+  // guarded multi-target pointer (obj == -2): one of several concrete (object, offset) pairs, selected by disjoint
+  // conditions; produced by a load of a pointer through a symbolic index (e.g. regs[reg]) and consumed without
+  // forking by the string functions; any other use resolves it by a case split
+  std::shared_ptr<std::vector<PtrTarget>> multi;
 };
 
 static uint64_t maskbits(uint64_t v, unsigned bits) { return bits >= 64 ? v : (v & ((1ULL << bits) - 1)); }
@@ -241,7 +246,7 @@ static int new_obj(State &s, uint64_t size, const std::string &name, OK kind, bo
 // ---------------------------------------------------------------- stats / options
 struct Stats
 {
-  uint64_t paths = 0, completed = 0, infeasible = 0, queries = 0, steps = 0, forks = 0, cache_hits = 0, model_hits = 0, asserts_checked = 0, abandoned = 0;
+  uint64_t pruned_render = 0, paths = 0, completed = 0, infeasible = 0, queries = 0, steps = 0, forks = 0, cache_hits = 0, model_hits = 0, asserts_checked = 0, abandoned = 0;
   double solver_s = 0;
 } ST;
 
@@ -256,6 +261,8 @@ struct Options
   std::vector<uint64_t> concrete;
   uint64_t seed = 0;
   bool uf_muldiv = false;
+  bool false_first = false;      // on a two-way fork continue with the false side first (reaches 'no table row matched' paths early)
+  unsigned render_classes = 0;   // 0: explore every digit-count class of a rendered symbolic integer; N: only N of them (shortest, longest, middle)
   bool verbose = false;
 } OPT;
 
@@ -436,7 +443,7 @@ static std::vector<uint64_t> feasible_assignments(State &s, const Support &sp)
 {
   Timer tm(T_ENUM);
   std::set<unsigned> sv; for (auto &v : sp.vars) sv.insert(Z3_get_ast_id(Z, v));
-  std::vector<z3::expr> rel; bool independent = sp.bits <= 12;
+  std::vector<z3::expr> rel; bool independent = sp.bits <= 10;
   if (independent)
     for (auto &c : s.pc)
     {
@@ -447,7 +454,7 @@ static std::vector<uint64_t> feasible_assignments(State &s, const Support &sp)
       if (!only) { independent = false; break; }
       rel.push_back(c);
     }
-  if (!independent) return feasible_values(s, support_cat(sp), 70000);
+  if (!independent) return feasible_values(s, support_cat(sp), 1100);
   // cache keyed by the variables and the relevant constraints (all pinned, ids stable)
   static std::map<std::vector<unsigned>, std::vector<uint64_t>> cache;
   std::vector<unsigned> key; for (auto &v : sp.vars) key.push_back(eid(v)); key.push_back(0); for (auto &c : rel) key.push_back(eid(c));
